@@ -430,6 +430,79 @@ func msvCase(r *gen.R, n int) {
 	msvLine("nosigs", s, msg, marshalSigs([][]byte{}), nil)
 }
 
+func multiFrom(members []*signer) *signer {
+	s := &signer{members: members}
+	var pks []crypto.PublicKey
+	for _, m := range members {
+		pks = append(pks, m.pub)
+	}
+	s.pub = crypto.PublicKeyMultiSignature{PublicKeys: pks}
+	return s
+}
+
+// dupKeyCase: multisig keys that list the SAME member key at several positions (adjacent,
+// non-adjacent, all equal, across key kinds, nested multisig members), with the genuine signature
+// list and, for every slot, a mutated / junk / foreign / other-member signature in that slot only.
+// Verification is positional: a bad signature in a later duplicate slot must be rejected even
+// though the same key's genuine signature sits in an earlier slot.
+func dupKeyCase(r *gen.R) {
+	a, b := newSimple(r), newSimple(r)
+	var other *signer
+	if _, ok := a.pub.(crypto.Ed25519PublicKey); ok {
+		other = newSecp(r)
+	} else {
+		other = newEd(r)
+	}
+	nested := newMulti(r, 2, 0)
+	shapes := [][]*signer{
+		{a, a},
+		{a, b, a},
+		{a, a, b},
+		{b, a, a},
+		{a, b, b, a},
+		{a, a, a},
+		{a, a, a, a},
+		{a, other, a},
+		{other, a, other, a},
+		{nested, b, nested},
+		{nested, nested},
+		{a, nested, a, nested},
+	}
+	members := shapes[r.Intn(len(shapes))]
+	s := multiFrom(members)
+	n := len(members)
+	msg := r.Bytes(1 + r.Intn(48))
+	sigs := make([][]byte, n)
+	for i, m := range members {
+		sigs[i] = m.sign(msg)
+	}
+	cp := func() [][]byte { return append([][]byte(nil), sigs...) }
+	msvLine("dupkey-ok", s, msg, marshalSigs(sigs), allTrue(n))
+	for i := 0; i < n; i++ {
+		bad := func(label string, sg []byte) {
+			c := cp()
+			c[i] = sg
+			tr := allTrue(n)
+			tr[i] = false
+			msvLine(fmt.Sprintf("dupkey-%s%d", label, i), s, msg, marshalSigs(c), tr)
+		}
+		bad("sigmut", mutateAt(r, sigs[i], r.Intn(len(sigs[i]))))
+		bad("junk", r.Bytes(len(sigs[i])))
+		bad("stranger", newSimple(r).sign(msg))
+		// the signature of a different member of the same key list
+		for j := 0; j < n; j++ {
+			if members[j] != members[i] {
+				bad("othermember", sigs[j])
+				break
+			}
+		}
+		bad("emptysig", []byte{})
+		bad("oldmsg", members[i].sign(append(append([]byte{}, msg...), 1)))
+	}
+	// the key itself round-trips like any other
+	keyCase(r, s)
+}
+
 // decoder-produced keys outside what NewMultiKey allows: empty, single member, nil member.
 func oddKeyCase(r *gen.R) {
 	empty := crypto.PublicKeyMultiSignature{}
@@ -642,6 +715,8 @@ func main() {
 		t.Line("consts", true, "consts => %s %s %s %s %d %d", gen.Hex(e.pub.Bytes()[:4]), gen.Hex(s.pub.Bytes()[:4]), gen.Hex(m.Bytes()[:4]), gen.Hex(ms.Marshal()[:4]), crypto.Ed25519PubKeySize, crypto.Secp256k1PublicKeySize)
 	}
 	oddKeyCase(r)
+	dupKeyCase(r)
+	dupKeyCase(r)
 	for i := 0; i < *n; i++ {
 		switch k := r.Intn(20); {
 		case k < 3:
@@ -660,6 +735,8 @@ func main() {
 			oddKeyCase(r)
 		case k < 18:
 			assembleCase(r)
+		case k < 19:
+			dupKeyCase(r)
 		default:
 			addSigCase(r)
 		}
